@@ -3,10 +3,12 @@ META = dict(
   level_text='Whole-pipeline model checking of Clipper64::Execute in the USINGZ configuration on concrete geometries with EVERY Z quantity symbolic (the z of each input vertex, DefaultZ, whether a callback is installed and every value it assigns): for all of them the x,y solution equals the one the plain build produces (obtained natively at check time), and every solution vertex either coincides with an input vertex and carries a z given at that location, or carries what the callback assigned for exactly that point, or DefaultZ when no callback is installed.',
   level_note='Geometry is a small concrete corpus (listed); the quantifier covers all Z labelings/callback behaviours, not all geometry: Z never steers the sweep, which is what makes the whole Execute symbolically executable here. ClipperD::ZCB, ClipperOffset::ZCB and RectClip are not covered.',
   functions=['Clipper64::Execute (USINGZ)', 'ClipperBase::SetZ', 'ClipperBase::IntersectEdges', 'ClipperBase::AddPaths', 'Clipper64::BuildPaths64', 'Point<long> (z member, equality ignores z)'],
-  assumptions=['geometries: two crossing triangles (6 crossings); triangle inside a square (no crossings)'],
+  assumptions=['geometries: two crossing triangles subject/clip (Intersection); triangle inside a square (no crossings); two overlapping subjects with a distant clip (Difference)'],
   outside=['all other geometry', 'offsetting / rect clipping / ClipperD Z handling'],
 )
 OBLIGATIONS = [
+  O('C15.ab-z-accounting-same-type', 'eng_z.cpp', 'harness_z_accounting', defs=['GEOM=2'], usingz=True, unwind=18, timeout=900, expect_from=('eng_plain.cpp', [], 'expect_geom2'),
+    bound='two overlapping subject triangles and a distant clip, Difference; all z labels, DefaultZ, callback values', desc='same-type crossings (local minima / maxima created at crossings): same x,y as the plain build and every z accounted for'),
   O('C15.ab-z-accounting-crossing', 'eng_z.cpp', 'harness_z_accounting', defs=['GEOM=0'], usingz=True, unwind=14, timeout=600, expect_from=('eng_plain.cpp', [], 'expect_geom0'),
     bound='two crossing triangles; all z labels, DefaultZ, callback values', desc='same x,y as the plain build; every solution z is an input z at that point, a callback value for that point, or DefaultZ'),
   O('C15.ab-z-accounting-nested', 'eng_z.cpp', 'harness_z_accounting', defs=['GEOM=1'], usingz=True, unwind=14, timeout=600, expect_from=('eng_plain.cpp', [], 'expect_geom1'),
